@@ -90,13 +90,23 @@ def family_a(ck, case, rnd):
             bad('T2t/point/t2T raised %r' % e, 'T2t/raises-' + type(e).__name__, [K - 1, str(tq)], repr(e), T)
             return
         if exact:
-            if k != K - 1 or tt != tf:
+            # at a joint one T belongs to two segments (the end of one, the start of the next one of positive length): either (k, t) is a correct answer,
+            # and with it the point (across a jump the two points differ)
+            alts = [(K - 1, tf, exp_pt)]
+            if tq == 1:
+                later = [m for m in range(K, n) if lens[m] > 0]
+                if later:
+                    alts.append((later[0], 0.0, segs[later[0]].start))
+            if tq == 0 and K - 1 > 0:
+                alts.append((K - 2, 1.0, segs[K - 2].end))
+            hit = [a_ for a_ in alts if k == a_[0] and tt == a_[1]]
+            if not hit:
                 bad('T2t(T) = %r, model (k,t) = (%d, %s)' % ((k, tt), K - 1, tq), 'T2t/wrong-segment-or-t', [K - 1, str(tq)], [k, tt], T)
                 return
             if back != T:
                 bad('t2T(k,t) = %r != T' % back, 't2T/wrong', T, back, T)
                 return
-            if pt != exp_pt:
+            if pt != hit[0][2] and pt not in [a_[2] for a_ in alts]:
                 bad('point(T) = %r, model %r' % (pt, exp_pt), 'point/wrong', repr(exp_pt), repr(pt), T)
                 return
         else:
